@@ -24,6 +24,12 @@ from vf import lattice
 from vf.cli import WorkerResult
 from vf.oracles import harm
 
+
+def _gt(a, b):
+    """a > b that is also True when a is NaN (a silent NaN must never pass a tolerance test)."""
+    return ~(np.asarray(a) <= np.asarray(b))
+
+
 LEVEL = "exploration"
 RULE = (
     "complete product grid x type x max order x centres x function-value basis x call form; one "
@@ -172,7 +178,7 @@ def _case(arg):
                                       f"returned order list differs from the documented Horton order "
                                       f"(got {np.asarray(orders).tolist()[:6]}..., expected {rord.tolist()[:6]}...)", c2)
                 tol = 1e-11 * sc + 1e-300
-                bad = np.abs(got - ref) > tol
+                bad = _gt(np.abs(got - ref), tol)
                 res.nontrivial(n=int(np.count_nonzero(sc > 0)))
                 if np.any(bad):
                     k, c = np.argwhere(bad)[0]
@@ -201,7 +207,7 @@ def dipole(ctx):
         ref = (charges[:, None] * (coords - com)).sum(axis=0) - np.array([np.sum(w * dens * (pts[:, k] - com[k])) for k in range(3)])
         got = np.asarray(dipole_moment_of_molecule(g, dens, coords, charges), dtype=float)
         ctx.nontrivial(("dipole", len(charges)), section="dipole")
-        if got.shape != (3,) or np.any(np.abs(got - ref) > 1e-11 * (1 + np.abs(ref))):
+        if got.shape != (3,) or np.any(_gt(np.abs(got - ref), 1e-11 * (1 + np.abs(ref)))):
             ctx.violation("dipole:differs-from-nuclear-minus-electronic-first-moments",
                           f"dipole_moment_of_molecule = {got}, reference {ref}", {"route": "dipole", "natoms": len(charges)})
 
